@@ -1,3 +1,7 @@
 From PW Require Import Child.Sem Gen.Skel Child.Runs.
 Definition check_obs (k : kind) (pers : bool) (t : target) (rb : bool) (plan : list (nat * action)) (expected : obs) : bool :=
   obs_eqb (observe k rb (run k pers t plan)) expected.
+
+(* landing points given relative to the start point of the kind (the first boundary after the child announced itself) *)
+Definition check_obs_rel (k : kind) (pers : bool) (t : target) (rb : bool) (plan : list (nat * action)) (expected : obs) : bool :=
+  obs_eqb (observe k rb (run k pers t (map (fun x => (start_point k + fst x, snd x)) plan))) expected.
